@@ -1095,7 +1095,7 @@ def _len_unit(c, e, _depth=0):
         if m == "len_utf8":
             return "byte"
         if m in ("try_into", "into", "unwrap", "expect", "try_from"):
-            return _len_unit(c, e["recv"])
+            return _len_unit(c, e["recv"], _depth)
     if k == "Call":
         d = hir.callee(e) or ""
         if last(d) in ("from", "try_from") and e["args"]:
@@ -1167,6 +1167,30 @@ def rule_len_units(prog):
                 for fl in s["fields"]:
                     if fl["name"] == "length":
                         u = unit(fl["e"])
+                        # the text whose units are counted: when it is the text of the whole token range (`text[token.range]`), the
+                        # line break that the lexer puts inside a comment token must be cut off first - a semantic token stays on its line
+                        roots_, seen_l = [fl["e"]], set()
+                        slices, trims = [], False
+                        defs_l = {l_["pat"]["id"]: l_["init"] for l_ in hir.nodes(b["body"], "Let") if l_["pat"].get("k") == "Binding" and l_.get("init") is not None}
+                        while roots_:
+                            r_ = roots_.pop()
+                            for x in hir.nodes_deep(prog, r_, 1, crate=c):
+                                pl_ = hir.path_local(x) if x.get("k") == "Path" else None
+                                if pl_ and pl_["id"] in defs_l and pl_["id"] not in seen_l:
+                                    seen_l.add(pl_["id"])
+                                    roots_.append(defs_l[pl_["id"]])
+                                if x.get("k") == "Index" and "str" in c.tstr(hir.strip(x["base"])["t"]) + "".join(
+                                        c.tstr(a_["to"]) for a_ in hir.strip(x["base"]).get("adj") or []) and any(
+                                        f_.get("k") == "Field" and f_["name"] == "range" for f_ in hir.nodes(x["idx"])):
+                                    slices.append(x)
+                                if x.get("k") == "MethodCall" and x["m"] in ("trim_end_matches", "trim_end", "strip_suffix", "trim_matches", "lines", "trim"):
+                                    trims = True
+                        if slices:
+                            n += 1
+                            out.add(b["d"], "SemanticToken.length does not count the line break inside a comment token", trims, c.loc(slices[0]["sp"]),
+                                    "the length is the number of units of `text[token.range]`; the range of a comment token includes the line break "
+                                    "that ends it (Comment::lex), so the token of a comment reaches beyond its line - a multi-line token, which the "
+                                    "server never negotiated", ("lsp", "eol"))
                         n += 1
                         out.add(b["d"], "SemanticToken.length counts UTF-16 code units", (u == "utf16") if u else None,
                                 c.loc(s["sp"]), "the value stored counts %ss; LSP token lengths are UTF-16 code units, so any "
